@@ -27,7 +27,7 @@ func init() {
 			return 64000
 		},
 		Run:      runC14,
-		Required: []string{"queries.uncapped", "queries.capped_hit", "queries.capped_not_hit", "nets.dag", "nets.cyclic", "nets.self_loop", "sequences.after_cap_hit"},
+		Required: []string{"queries.uncapped", "queries.capped_hit", "queries.capped_not_hit", "nets.dag", "nets.dag_with_links_labelled_recurrent", "nets.cyclic", "nets.self_loop", "sequences.after_cap_hit"},
 	})
 }
 
@@ -44,11 +44,19 @@ func runC14(c *Ctx, idx int) {
 		if cyclic {
 			o.backEdges = 1 + r.Intn(4)
 		}
+		if r.Intn(3) == 0 {
+			// some forward links carry the recurrent label (genes flagged recurrent are expressed so): still no cycle
+			o.flagForward = pick(r, 0.1, 0.3, 1.0)
+		}
 		s := genNet(r, o)
-		hasBack, selfLoop := false, false
+		hasBack, selfLoop, labelled := false, false, false
 		for _, e := range s.Edges {
 			hasBack = hasBack || e.Back
 			selfLoop = selfLoop || e.From == e.To
+			labelled = labelled || e.RecFlag
+		}
+		if labelled && !hasBack {
+			c.Count("nets.dag_with_links_labelled_recurrent", 1)
 		}
 		viaGenesis := r.Intn(3) == 0
 		build := func() *network.Network {
